@@ -272,13 +272,11 @@ func buildEntries(s *Shared, rng *mrand.Rand) map[string][2][]byte {
 		"certTrailingDER":  {Leaf(0, 0, ts, 0, ref.Vec(append(append([]byte{}, x.Entry.Cert...), 0, 0), 3), nil), xExtra},
 		"chainNotDER":      {xLeaf, ref.CertChain(junk, x.DER[len(x.DER)-1])},
 	}
-	if rng.Intn(2) == 0 {
-		m["extraOfOtherType"] = [2][]byte{pLeaf, xExtra}
-		m["leafTrailing"] = [2][]byte{append(append([]byte{}, pLeaf...), 0xff), pExtra}
-		m["extraTrailing"] = [2][]byte{pLeaf, append(append([]byte{}, pExtra...), 0xff)}
-		m["leafTruncated"] = [2][]byte{cut(pLeaf), pExtra}
-		m["extraTruncated"] = [2][]byte{pLeaf, cut(pExtra)}
-	}
+	m["extraOfOtherTypePrecert"] = [2][]byte{pLeaf, xExtra}
+	m["leafTrailingPrecert"] = [2][]byte{append(append([]byte{}, pLeaf...), 0xff), pExtra}
+	m["extraTrailingPrecert"] = [2][]byte{pLeaf, append(append([]byte{}, pExtra...), 0xff)}
+	m["leafTruncatedPrecert"] = [2][]byte{cut(pLeaf), pExtra}
+	m["extraTruncatedPrecert"] = [2][]byte{pLeaf, cut(pExtra)}
 	return m
 }
 
@@ -336,14 +334,17 @@ func (w *World) sthJSON(d sthDev) (*Body, string) {
 	if d.tree == "empty" {
 		size, root = 0, w.EmptyRH
 	}
+	// The strongest server against a client that copies the field into a 32-byte array without looking at its
+	// length: sign the 32 bytes such a client would end up with.
 	sent := root
 	switch {
 	case d.rootLen < 32:
 		sent = root[:d.rootLen]
+		root = append(append([]byte{}, sent...), make([]byte, 32-d.rootLen)...)
 	case d.rootLen > 32:
 		sent = append(append([]byte{}, root...), make([]byte, d.rootLen-32)...)
 	}
-	ssize, sroot, sts := size, sent, w.TS
+	ssize, sroot, sts := size, root, w.TS
 	msg := []byte(nil)
 	switch d.over {
 	case "otherSize":
@@ -382,8 +383,12 @@ func (w *World) sctJSON(ch *Chain, d sctDev) (*Body, string) {
 		ext = w.Ext
 	}
 	id := w.LogID
-	if d.id == "foreign" {
+	switch d.id {
+	case "foreign":
 		id = w.ForeignID
+	case "oneBitOff":
+		id = append([]byte{}, w.LogID...)
+		id[31] ^= 0x01
 	}
 	switch {
 	case d.idLen < 32:
@@ -401,6 +406,8 @@ func (w *World) sctJSON(ch *Chain, d sctDev) (*Body, string) {
 		entry = ch.OtherType
 	case "otherTimestamp":
 		sts = w.TS + 1
+	case "noExtensions":
+		sext = nil
 	case "otherExtensions":
 		if d.ext == "some" {
 			sext = w.Ext2
@@ -486,6 +493,8 @@ func sctDevOf(class string) (sctDev, bool) {
 		d.idLen = 33
 	case "logIDForeign":
 		d.id = "foreign"
+	case "logIDOneBitOff":
+		d.id = "oneBitOff"
 	case "logIDForeignSignedByOwner":
 		d.id, d.who = "foreign", "otherKey"
 	case "versionOther":
@@ -518,6 +527,8 @@ func sctDevOf(class string) (sctDev, bool) {
 		d.over, d.ext = "otherExtensions", "some"
 	case "sigOverDroppedExtensions":
 		d.over = "otherExtensions"
+	case "sigOverNoExtensions":
+		d.over, d.ext = "noExtensions", "some"
 	case "sigOverSTHInput":
 		d.over = "otherSignatureType"
 	default:
